@@ -10,7 +10,9 @@
    directory layouts); and the renders whose result reader the harness kept unread while the
    process went on rendering, read when all renders were over.  [c_pairs] holds the other renders
    that were kept unread: what was read in the end, and the output of the same render repeated
-   and read at once.  The property's oracle looks only at Go's own observations: all outputs of
+   and read at once; and the renders by the process' OTHER engines (engines with another function
+   table or another template set under the same names): what such an engine rendered in this
+   process, and what it renders in a process that holds only that engine.  The property's oracle looks only at Go's own observations: all outputs of
    the pair byte-identical, the two outputs of every other kept render byte-identical, and the
    caller's data deep-equal (reflect.DeepEqual in the harness) to a pristine copy.  Where a model covers the template the outputs are also compared with its
    prediction: Models/Purity.v for the order-sensitive shapes, the executor model
@@ -24,9 +26,14 @@ From PV Require Export Models.Purity.
 Record case07 := {
   c_shape     : option shape;          (* None: template outside the shapes of Models/Purity.v *)
   c_tmpl      : option (list pnode);   (* the template as a pug tree, where the generator has one *)
-  c_data      : gdata;                 (* the caller's data as built by the harness *)
+  c_data      : gdata;                 (* the caller's data as built by the harness; a value the caller holds as
+                                          an object of the engine's own model (pugjs.Convert, []pugjs.Object) is
+                                          described by the Go value it was converted from *)
+  c_funcs     : list bytes;            (* names of the template functions the pair's engines have beyond the standard ones *)
   c_outs      : list (option bytes);   (* Some out | None = execution error, one per observed render *)
-  c_pairs     : list (option bytes * option bytes);   (* other renders: read late / read at once *)
+  c_pairs     : list (option bytes * option bytes);   (* other renders: read late / read at once; renders by an
+                                          engine with another function table or template set: in this process / in a
+                                          process that holds only that engine *)
   c_untouched : bool;                  (* harness: data deep-equals the pristine copy after all renders *)
 }.
 
@@ -248,8 +255,11 @@ Definition exec_model (nodes : list pnode) (d : gdata) : option (option bytes) :
     end
   end.
 
+(* the models know the standard function table: with further functions (a name the template reads may then be a
+   function call instead of a variable) they decline, and the case is judged by the oracle alone *)
 Definition model07 (c : case07) : option (option bytes) :=
-  if data_small (c_data c) then
+  if negb (match c_funcs c with [] => true | _ => false end) then None
+  else if data_small (c_data c) then
     match c_shape c with
     | Some sh => match render_shape id_oracle sh (c_data c) with Some o => Some (Some o) | None => None end
     | None => match c_tmpl c with Some nodes => exec_model nodes (c_data c) | None => None end
